@@ -180,7 +180,51 @@ ASSUMPTIONS = [
     "neuron stubs report as .spike the spikes returned by their last call (C03 clause)",
 ]
 
+
+NB = "inferno/neural/base.py"
+MD = "inferno/neural/modeling.py"
+LIN = "inferno/neural/connections/linear.py"
+
+
+@contract(P, "Connection.clear", [(NB, "Connection.clear"), (MD, "Updatable.clear"), (MD, "Updatable.update"), (MD, "Updatable.updater"), (MD, "Updatable.updater@setter"), (MD, "Updatable.updater@deleter"), (MD, "Updatable.updatable")])
+def connection_clear(c):
+    """what Layer.clear reaches: a connection's clear resets its synapse AND drops pending (accumulated, not yet
+    applied) parameter updates, with the keyword arguments forwarded; update() applies then clears"""
+    from . import layoutfree as lf
+
+    log = []
+    lf.install(c)
+    dt = c.real("dt")
+    c.require(dt > 0)
+    cv = c.interp.classv(repo.load_module(LIN).classes["LinearDense"])
+    conn = c.call(cv, (4,), (3,), dt, synapse=lf.synapse_ctor(c, log))
+    has = c.choice("updater", ["attached", "none", "attached_then_deleted"])
+    ulog = []
+    if has != "none":
+        up = Obj(None, "updater")
+        up.fields["clear"] = Model(lambda it, **kw: ulog.append(("clear", kw)), "updater.clear")
+        up.fields["__call__"] = Model(lambda it, *a, **kw: ulog.append(("apply", a, kw)), "updater.__call__")
+        c.setattr(conn, "updater", up)
+        c.ensure("updater_attached", c.getattr(conn, "updater") is up and c.getattr(conn, "updatable") is True)
+        if has == "attached_then_deleted":
+            c.interp.delattr(conn, "updater")
+            c.ensure("deleted_updater_is_gone", c.getattr(conn, "updater") is None and c.getattr(conn, "updatable") is False)
+    live = has == "attached"
+    log.clear()
+    c.call(c.getattr(conn, "clear"), keep=1)
+    c.ensure("synapse_cleared_with_kwargs", [e for e in log if e[0] == "clear"] == [("clear", {"keep": 1})])
+    c.ensure("pending_updates_dropped_with_kwargs_iff_updatable", ulog == ([("clear", {"keep": 1})] if live else []))
+    ulog.clear()
+    c.call(c.getattr(conn, "update"), flag=2)
+    c.ensure("update_applies_then_clears", ulog == ([("apply", (), {"flag": 2}), ("clear", {"flag": 2})] if live else []))
+    ulog.clear()
+    c.call(c.getattr(conn, "update"), clear=False)
+    c.ensure("update_without_clear_keeps_accumulated_state", ulog == ([("apply", (), {})] if live else []))
+    c.canary("canary_synapse_not_cleared", z3.BoolVal(not [e for e in log if e[0] == "clear"]))
+
 MUTANTS = [
+    dict(file="inferno/neural/base.py", func="Connection.clear", old="        self.synapse.clear(**kwargs)", new="        self.synapse.clear()", contracts=["Connection.clear"]),
+    dict(file="inferno/neural/base.py", func="Connection.clear", old="        Updatable.clear(self, **kwargs)\n", new="", contracts=["Connection.clear"]),
     dict(file=NW, func="Layer.clear", old="for connection in self.connections_.values():", new="for connection in self.connections_:", contracts=["Serial", "Biclique"], name="D17 regression: clear iterates ModuleDict keys"),
     dict(file=NW, func="Biclique.__init__", old='"s ... -> ..."', new='"s ... -> () ..."', contracts=["Biclique"], name="D18 regression: combine keeps a leading singleton axis"),
     dict(file=NW, func="Biclique.wiring", old="{k: self.post_input[k](v) for k, v in inputs.items()}", new="{k: f(v) for (k, v), f in zip(inputs.items(), self.post_input.values())}", contracts=["Biclique"], name="seed C17: post transforms paired by position"),
